@@ -181,6 +181,8 @@ def op_line(op: dict) -> str:
     k = op["op"]
     A = lambda a: e_arr(e_str, a)
     V = lambda a: e_arr(e_rat, a)
+    if k == "reconfigure":
+        return cfg_line(op["cfg"])       # the driver's `cfg` line replaces the configuration, nothing else
     if k == "add":
         return " ".join(["op add", str(op["lab"]), A(op["wells"]), V(op["vols"]), e_opt(e_str, op.get("label")), e_comps(op.get("comps"))])
     if k == "remove":
